@@ -91,6 +91,7 @@ func (c *CbJSON) UnmarshalJSON(b []byte) error {
 	}
 	cbHook(4)
 	c.A, c.S = t.A, t.S
+	cbHook(8) // after the last use of the receiver: only the caller's frame keeps *c alive now
 	return nil
 }
 
@@ -123,6 +124,7 @@ func (c *CbText) UnmarshalText(b []byte) error {
 	}
 	cbHook(7)
 	c.K, c.V = k, s[i+1:]
+	cbHook(9) // after the last use of the receiver: only the caller's frame keeps *c alive now
 	return nil
 }
 
